@@ -77,6 +77,60 @@ type finding struct {
 	paths []string
 	key   string
 	dups  int
+	cause *namedCause
+}
+
+// namedCause gives a grammar finding a stable class name (like the shape
+// families have) when the paths that matter of its minimal program show a
+// divergence already understood; the same predicate on a failing program's own
+// paths (same symptom) makes it a duplicate of the reported one.
+type namedCause struct {
+	frame, kind, name string
+	match             func(paths []string) bool
+}
+
+func leafIs(path string, names ...string) bool {
+	e := path[strings.LastIndex(path, ">")+1:]
+	for _, n := range names {
+		if e == n || strings.HasPrefix(e, n+"/") {
+			return true
+		}
+	}
+	return false
+}
+
+func anyLeaf(paths []string, names ...string) bool {
+	for _, p := range paths {
+		if leafIs(p, names...) {
+			return true
+		}
+	}
+	return false
+}
+
+var namedCauses = []*namedCause{
+	// t += "b" leaves a Buffer: == / switch on it is false, []byte(t) aliases it
+	{"S", "value", "concatenated-string-is-a-buffer", func(ps []string) bool { return anyLeaf(ps, "concat") }},
+	// bs = bs[1:] copies (SUBSTR) where Go makes a view of the same array
+	{"S", "value", "byte-subslice-is-a-copy", func(ps []string) bool { return anyLeaf(ps, "bytes-sub") }},
+	// append never reallocates: a slice appended to inside a range over it stays the ranged array
+	{"C", "value", "append-inside-range-keeps-the-array", func(ps []string) bool {
+		for _, p := range ps {
+			if leafIs(p, "append") && strings.Contains(p, "range-") {
+				return true
+			}
+		}
+		return false
+	}},
+}
+
+func causeOf(frame, kind string, paths []string) *namedCause {
+	for _, c := range namedCauses {
+		if c.frame == frame && c.kind == kind && c.match(paths) {
+			return c
+		}
+	}
+	return nil
 }
 
 type checker struct {
@@ -407,6 +461,10 @@ func (ck *checker) failing(b *batch, u *unit, m *mismatch) {
 				f.dups++
 				return true
 			}
+			if f.cause != nil && f.cause == causeOf(u.fn.Feature, m.Kind, u.fn.Paths) {
+				f.dups++
+				return true
+			}
 		}
 		return false
 	}
@@ -433,11 +491,16 @@ func (ck *checker) failing(b *batch, u *unit, m *mismatch) {
 		feat = feat[:90]
 	}
 	key := fmt.Sprintf("%s/%s:%s", feat, minM.Kind, shortHash(norm))
+	cause := causeOf(minFn.Feature, minM.Kind, corePaths)
+	if cause != nil {
+		feat = "grammar-" + minFn.Feature + "/" + cause.name
+		key = fmt.Sprintf("%s:%s", feat, shortHash(norm))
+	}
 	ck.mu.Lock()
 	if os.Getenv("C14_DEBUG") != "" {
 		fmt.Printf("DEBUG finding sig=%q orig=%v min=%v core=%v key=%s\n", sig, u.fn.Paths, minFn.Paths, corePaths, key)
 	}
-	ck.findings = append(ck.findings, &finding{sig: sig, paths: corePaths, key: key})
+	ck.findings = append(ck.findings, &finding{sig: sig, paths: corePaths, key: key, cause: cause})
 	ck.mu.Unlock()
 	minM.Fn = 0
 	if ck.r.Violation(key, violDetail{Kind: u.kind, Feature: feat, Mismatch: minM, Source: norm, Original: u.fn.Src, Prog: one, FnName: minFn.Name, Paths: minFn.Paths, Core: corePaths}) {
@@ -656,13 +719,25 @@ func validBody(list []*node, ctx gctx) bool {
 				if s.loopN >= ctx.loops {
 					return false
 				}
+			case "nested":
+				if ctx.depth == 0 {
+					return false
+				}
 			}
 			if s.a.ends && i < len(list)-1 {
 				return false
 			}
+			if s.a.decl != "" {
+				for _, o := range list[i+1:] {
+					if o.a != nil && o.a.decl == s.a.decl {
+						return false
+					}
+				}
+			}
 			continue
 		}
 		sub := ctx
+		sub.depth++
 		if s.c.loop > 0 {
 			sub.loops++
 			sub.breakable = true
